@@ -814,10 +814,11 @@ func (g *Group) Range(f func(c Client) bool) {
 }
 
 func kickall(g *Group, message string) {
-	g.Range(func(c Client) bool {
+	// don't hold the group lock while kicking: some kinds of
+	// clients remove themselves from the group when kicked
+	for _, c := range g.GetClients(nil) {
 		c.Kick("", nil, message)
-		return true
-	})
+	}
 }
 
 func Shutdown(message string) {
